@@ -412,7 +412,60 @@ fn exit_status_sweep(ctx: &Ctx) {
     );
 }
 
+/// Signals that do not change what a child does (CONT to a running or finished child, signals
+/// whose default action is to be ignored, the null signal): under every schedule - in particular
+/// when the child has already finished but has not been waited for yet - `wait` still reports the
+/// child's own exit status, exactly once, and the shell terminates.
+fn harmless_signals_slice(ctx: &Ctx) {
+    const SIGS: [&str; 5] = ["CONT", "URG", "WINCH", "CHLD", "0"];
+    const SHAPES: [&str; 4] = [
+        "( probe -s 3 k1 ) & p=$!\nkill -s SIG $p; probe k2 \"$?\"\nwait $p; probe k3 \"$?\"\n",
+        "{ probe -s 4 k1; } & p=$!\nkill -s SIG $p; kill -s SIG $p; probe k2 \"$?\"\nwait $p; probe k3 \"$?\"\nwait $p; probe k4 \"$?\"\n",
+        "probe -s 5 k1 & p=$!\nprobe k0 | relay\nkill -s SIG $p; probe k2 \"$?\"\nwait; probe k3 \"$?\"\n",
+        "( probe -s 6 k1 ) & p=$!\n( probe -s 7 k5 ) & q=$!\nkill -s SIG $p $q; probe k2 \"$?\"\nwait $q; probe k3 \"$?\"\nwait $p; probe k4 \"$?\"\n",
+    ];
+    let per = if ctx.quick() { 12 } else { 300 };
+    ctx.par_for(
+        SIGS.len() * SHAPES.len() * per,
+        |i| {
+            let sig = SIGS[i % SIGS.len()];
+            let shape = SHAPES[(i / SIGS.len()) % SHAPES.len()];
+            let k = i / (SIGS.len() * SHAPES.len());
+            let script = shape.replace("SIG", sig);
+            let strat = || if k == 0 { Strategy::Fifo } else { Strategy::Random { seed: k as u64 + ctx.seed * 104729, preempt_pct: [0, 20, 50][k % 3], max_preempt: 40 } };
+            // reference: the same script without the kill commands, FIFO
+            let plain: String = script.lines().map(|l| if let Some(rest) = l.strip_prefix(&format!("kill -s {sig} $p; kill -s {sig} $p; ")) { rest.to_string() } else if let Some(rest) = l.strip_prefix(&format!("kill -s {sig} $p $q; ")) { rest.to_string() } else if let Some(rest) = l.strip_prefix(&format!("kill -s {sig} $p; ")) { rest.to_string() } else { l.to_string() }).collect::<Vec<_>>().join("\n") + "\n";
+            let want: std::collections::BTreeMap<String, String> = vsh::run_script(&plain, Strategy::Fifo).events.iter().filter(|e| e.kind == "probe").map(|e| (e.args[0].clone(), e.args.get(1).cloned().unwrap_or_default())).collect();
+            let mut cfg = vsh::VCfg::script(&script);
+            cfg.extra = vsh::v_probes();
+            cfg.strategy = strat();
+            let out = vsh::run_v(cfg);
+            ctx.eval();
+            ctx.count("harmless_signal_runs", 1);
+            let got: std::collections::BTreeMap<String, String> = out.events.iter().filter(|e| e.kind == "probe").map(|e| (e.args[0].clone(), e.args.get(1).cloned().unwrap_or_default())).collect();
+            let ctxt = || format!("signal {sig}, schedule {:?}\nscript:\n{script}probes (id -> $?) {got:?}\nwithout the kill commands {want:?}\nend {:?}, zombies {:?}, alive {:?}\nstderr:\n{}", strat(), out.end, out.zombies, out.alive, out.err());
+            if out.end != vsh::End::Done || !out.zombies.is_empty() || !out.alive.is_empty() {
+                ctx.violation("C13:harmless-signal:not-finished-or-not-reaped", ctxt());
+            } else if got.iter().filter(|(k, _)| *k != "k2").ne(want.iter().filter(|(k, _)| *k != "k2")) {
+                // (k2 is the status of `kill` itself: 0, or 1 when the shell has already reaped
+                // the finished child at a command boundary - both are right)
+                ctx.violation(format!("C13:harmless-signal:result-changed:{sig}"), ctxt());
+            } else {
+                ctx.nontrivial(out.trace_hash ^ i as u64);
+            }
+        },
+        |i, msg| {
+            if crate::util::panic_in_repo(&msg) {
+                ctx.violation(format!("C13:panic:{}", msg.split(": ").next().unwrap_or("")), format!("harmless-signal case {i}: {msg}"));
+            } else {
+                ctx.violation("harness-panic", format!("harmless-signal case {i}: {msg}"));
+            }
+        },
+    );
+}
+
 pub fn run(ctx: &Ctx) {
+    harmless_signals_slice(ctx);
     exit_status_sweep(ctx);
     shared_pipe_slice(ctx);
     fork_fault_slice(ctx);
